@@ -8,6 +8,7 @@ import (
 	"strings"
 	"time"
 
+	sasl "github.com/emersion/go-sasl"
 	"github.com/fluffle/goirc/client"
 
 	"verifsim/simnet"
@@ -78,6 +79,22 @@ func mkEvent(g G, seq int, verb string, tagged bool, long bool) *evLine {
 	return ev
 }
 
+// snapshotLine is an independent deep copy made by the harness itself.
+func snapshotLine(l *client.Line) *client.Line {
+	c := *l
+	c.Args = append([]string(nil), l.Args...)
+	if l.Args == nil {
+		c.Args = nil
+	}
+	if l.Tags != nil {
+		c.Tags = make(map[string]string, len(l.Tags))
+		for k, v := range l.Tags {
+			c.Tags[k] = v
+		}
+	}
+	return &c
+}
+
 func seqOf(l *client.Line) int {
 	if len(l.Args) < 2 {
 		return -1
@@ -102,7 +119,14 @@ type invRec struct {
 func orderAndCopies(e *Env) {
 	g := G{e.S}
 	c15 := e.Prop == "C15"
-	verbs := []string{"PRIVMSG", "NOTICE", "TOPIC", "372", "FOO"}[:g.Range(1, 5)]
+	// verbs with and without built-in handlers (PING is answered by the client
+	// itself, MODE/JOIN/TOPIC go through the tracker first)
+	pool := []string{"PRIVMSG", "NOTICE", "TOPIC", "372", "FOO", "PING", "MODE", "JOIN", "PONG", "INVITE"}
+	for i := len(pool) - 1; i > 0; i-- {
+		j := g.Intn(i + 1)
+		pool[i], pool[j] = pool[j], pool[i]
+	}
+	verbs := pool[:g.Range(1, 5)]
 	n := []int{1, 3, 8, 20, 40, 80, 150, 300}[g.Intn(8)]
 	if c15 && n > 40 {
 		n = 40
@@ -197,6 +221,13 @@ func orderAndCopies(e *Env) {
 	}
 	var invs []*invRec
 	nh := 0
+	type keptLine struct {
+		l    *client.Line
+		snap *client.Line
+		r    *invRec
+	}
+	var kept []keptLine
+	handedOut := map[*client.Line]*invRec{}
 	type connRec struct {
 		enter, exit uint64
 		nick        string
@@ -225,6 +256,11 @@ func orderAndCopies(e *Env) {
 				invs = append(invs, r)
 				if c15 {
 					e.Check()
+					if prev, dup := handedOut[l]; dup {
+						e.Violation("line-altered", "%s handler %d (event %d) was given the very *Line that handler %d had been given for event %d", r.set, id, seqOf(l), prev.h, prev.seq)
+						return
+					}
+					handedOut[l] = r
 					if r.seq < 0 || r.seq >= len(evs) {
 						e.Violation("line-altered", "handler %d received a line without a valid sequence number: Cmd=%q Args=%q (another invocation's edits?)", id, l.Cmd, l.Args)
 						return
@@ -271,6 +307,11 @@ func orderAndCopies(e *Env) {
 						e.Violation("own-edits-lost", "%s handler %d (event %d): its own edits to its line were changed by someone else: Args=%q Tags=%q, had written Args=%q Tags=%q", r.set, id, r.seq, l.Args, l.Tags, mine.Args, mine.Tags)
 						return
 					}
+				}
+				if c15 {
+					// the handler keeps its line (e.g. queues it for a worker): it
+					// must stay as it is now, whatever is dispatched later
+					kept = append(kept, keptLine{l, snapshotLine(l), r})
 				}
 				r.exit = e.S.Stamp()
 			})
@@ -337,6 +378,13 @@ func orderAndCopies(e *Env) {
 		}
 	}
 	if c15 {
+		e.Check()
+		for _, k := range kept {
+			if d := lineDiff(k.l, k.snap); d != "" {
+				e.Violation("line-altered", "the line %s handler %d kept from event %d changed after the handler had returned: %s", k.r.set, k.r.h, k.r.seq, d)
+				return
+			}
+		}
 		return
 	}
 	// ---- C03 oracle over the recorded history ----
@@ -480,6 +528,12 @@ func misbehave(e *Env) {
 	}
 	var recovered []rcall
 	o := ClientOpts{Nick: "me", Flood: true, Track: g.Pct(40)}
+	if g.Pct(40) {
+		// with a SASL client configured the built-in AUTHENTICATE / CAP handlers
+		// go further before a malformed line stops them
+		o.Sasl = sasl.NewPlainClient("", "user", "pw")
+		o.Caps = []string{"sasl"}
+	}
 	if customRecover {
 		o.Recover = func(c *client.Conn, l *client.Line) {
 			if r := recover(); r != nil {
@@ -502,7 +556,8 @@ func misbehave(e *Env) {
 		evs = append(evs, mkEvent(g, i, verbs[g.Intn(2)], g.Bool(), false))
 	}
 	// built-in handlers provoked by lines with too few parameters
-	provoke := []string{"PING", ":irc.sim 433", ":irc.sim CAP", ":irc.sim 410", "AUTHENTICATE", ":u!i@h.sim NICK", ":irc.sim 908 me"}
+	provoke := []string{"PING", ":irc.sim 433", ":irc.sim CAP", ":irc.sim 410", "AUTHENTICATE", ":u!i@h.sim NICK", ":irc.sim 908 me", "AUTHENTICATE", "AUTHENTICATE +", "AUTHENTICATE !notbase64!",
+		":irc.sim CAP * ACK :sasl", ":irc.sim CAP * LS", ":irc.sim CAP * ACK", ":irc.sim 001", ":irc.sim 353 me = #c", ":irc.sim 352 me #c", ":u!i@h.sim MODE #c +o", ":u!i@h.sim KICK #c", ":irc.sim 324 me", ":irc.sim 332 me #c"}
 	nProvoke := 0
 	type hinfo struct {
 		id      int
